@@ -1,6 +1,7 @@
 import warnings
 from typing import List
 
+from classy_blocks.base import transforms as tr
 from classy_blocks.base.element import ElementBase
 from classy_blocks.base.exceptions import EdgeCreationError
 from classy_blocks.construct.curves.curve import CurveBase
@@ -115,6 +116,16 @@ class Angle(EdgeData):
 
     def scale(self, ratio, origin=None):
         """Axis is not to be scaled"""
+
+    def transform(self, transforms):
+        """The generic implementation works on parts and would move the axis like a point"""
+        for t7m in transforms:
+            if isinstance(t7m, tr.Rotation):
+                self.rotate(t7m.angle, t7m.axis)
+            elif isinstance(t7m, tr.Mirror):
+                self.mirror(t7m.normal)
+
+        return self
 
     @property
     def parts(self):
